@@ -1150,9 +1150,18 @@ Error query_rw_info(Arch arch, const BaseInst& inst, const Operand_* operands, s
 
     rm_ops_mask &= uint32_t(inst_rm_info.rm_ops_mask);
     if (rm_ops_mask && !inst.has_option(InstOptions::kX86_ER)) {
+      // An immediate that is not a sign-extended 32-bit value can only be combined with a 64-bit register (the
+      // zero-extending `and r64, imm32` form) - there is no `m64, imm` form that could hold it.
+      bool imm_fits_mem64 = !(op_count >= 2 && operands[op_count - 1].is_imm()) ||
+                            Support::is_int_n<32>(operands[op_count - 1].as<Imm>().value());
+
       Support::BitWordIterator<uint32_t> it(rm_ops_mask);
       do {
         i = it.next();
+
+        if (!imm_fits_mem64 && operands[i].x86_rm_size() == 8u) {
+          continue;
+        }
 
         OpRWInfo& op = out->_operands[i];
         op.add_op_flags(RegM);
